@@ -32,6 +32,8 @@ pub struct Parser {
     errors: Vec<error::SyntaxErr>,
     standard: VHDLStandard,
     recovery: RecoveryState,
+    /// The rest of the input, when the input is nested too deep to be parsed
+    deferred_tokens: Option<TokenStream>,
 }
 
 impl Parser {
@@ -42,6 +44,7 @@ impl Parser {
             errors: Vec::default(),
             standard,
             recovery: RecoveryState::new(),
+            deferred_tokens: None,
         }
     }
 
